@@ -18,16 +18,21 @@ def tla_set(items):
     return "{" + ", ".join('"%s"' % i for i in items) + "}"
 
 
-def gen(ctx, fams, deep, full, out):
+def gen(ctx, fams, deep, full, out, seqout="kdf_seq_unused.ndjson"):
     r = ctx.tlc("TLSKDFGen", "TLSKDF_gen.cfg",
                 subst={"FAMILIES": tla_set(fams), "DEEP": "TRUE" if deep else "FALSE",
-                       "FULL": "TRUE" if full else "FALSE", "OUT": out},
+                       "FULL": "TRUE" if full else "FALSE", "OUT": out, "SEQOUT": seqout},
                 workers=1, timeout=3000,
                 label="TLSKDFGen %s%s%s" % ("+".join(fams) if len(fams) < 4 else "all", " deep" if deep else "",
                                             " full" if full else ""))
     m = re.search(r'<<"CASES", (\d+)>>', r.out)
     if not m or int(m.group(1)) == 0:
         raise Machinery("TLSKDFGen produced no cases for %s" % fams)
+    if "seq" in fams:
+        ms = re.search(r'<<"SEQCASES", (\d+)>>', r.out)
+        if not ms or int(ms.group(1)) == 0:
+            raise Machinery("TLSKDFGen produced no use-after-mutation programs")
+        ctx.cov["use_after_mutation_programs"] = int(ms.group(1))
     return int(m.group(1))
 
 
@@ -54,12 +59,12 @@ def run(ctx):
     total = 0
     if ctx.quick:
         # one TLC process: the 512-byte outputs are combined with the main classes only
-        total += gen(ctx, ALL_FAMILIES, False, False, "kdf_cases_0.ndjson")
+        total += gen(ctx, ALL_FAMILIES + ["seq"], False, False, "kdf_cases_0.ndjson", "kdf_seq.ndjson")
         files.append(ctx.specfile("kdf_cases_0.ndjson"))
     else:
-        for i, fams in enumerate([ALL_FAMILIES[:8], ["ekm"], ["expandlabel"], ["exporter13"]]):
+        for i, fams in enumerate([ALL_FAMILIES[:8] + ["seq"], ["ekm"], ["expandlabel"], ["exporter13"]]):
             out = "kdf_cases_%d.ndjson" % i
-            total += gen(ctx, fams, False, True, out)          # full product of the classes
+            total += gen(ctx, fams, False, True, out, "kdf_seq.ndjson")          # full product of the classes
             files.append(ctx.specfile(out))
         for i, fams in enumerate([["phash"], ["prf10"], ["prf12"], ["expandlabel"], ["ekm"]]):
             out = "kdf_deep_%d.ndjson" % i
@@ -67,10 +72,30 @@ def run(ctx):
             files.append(ctx.specfile(out))
     cands, evals, nontriv = replay_files(ctx, binary, files, total)
 
+    # use-after-mutation programs (TLSKDFSeq.tla): create ; the caller mutates what it owns ; use
+    p = ctx.run(binary, ["replay-seq", ctx.specfile("kdf_seq.ndjson")], timeout=3000)
+    c1, st = ctx.harness_output(p)
+    if st.get("programs", 0) != ctx.cov.get("use_after_mutation_programs") or st.get("evaluations", 0) == 0:
+        raise Machinery("harness ran %s use-after-mutation programs, TLC generated %s"
+                        % (st.get("programs"), ctx.cov.get("use_after_mutation_programs")))
+    cands += c1
+    evals += st.get("evaluations", 0)
+    ctx.cov["use_after_mutation_per_fn"] = st.get("per_fn", {})
+
     # U3: random parameters (code side chooses), judged through the same operators
     nrand = 400 if ctx.quick else 6000
     params = ctx.specfile("kdf_params.ndjson")
     ctx.run(binary, ["gen-params", params, str(nrand)])
+    # end-to-end: real handshakes; their parameters go through the same TLC run
+    e2e_params, e2e_obs = ctx.path("e2e_params.ndjson"), ctx.path("e2e_obs.ndjson")
+    p = ctx.run(binary, ["e2e-run", e2e_params, e2e_obs], timeout=1200)
+    _, st = ctx.harness_output(p)
+    nhs = st.get("handshakes", 0)
+    if nhs == 0:
+        raise Machinery("no end-to-end handshake was recorded")
+    with open(params, "a") as f:
+        f.write(open(e2e_params).read())
+    nrand += nhs
     r = ctx.tlc("TLSKDFVal", "TLSKDF_val.cfg", subst={"IN": "kdf_params.ndjson", "OUT": "kdf_val.ndjson"},
                 workers=1, timeout=3000, label="TLSKDFVal %d params" % nrand)
     m = re.search(r'<<"CASES", (\d+), "OUTSIDE", (\d+)>>', r.out)
@@ -81,8 +106,15 @@ def run(ctx):
         raise Machinery("only %d of %d random parameter records lie in the specification's domain" % (inside, nrand))
     if outside:
         ctx.note("%d random parameter records outside the specification's domain (not judged)" % outside)
-    c2, e2, n2 = replay_files(ctx, binary, [ctx.specfile("kdf_val.ndjson")], inside)
+    c2, e2, n2 = replay_files(ctx, binary, [ctx.specfile("kdf_val.ndjson")], inside - nhs)
     cands += c2
+    p = ctx.run(binary, ["e2e-check", ctx.specfile("kdf_val.ndjson"), e2e_obs], timeout=1200)
+    c3, st = ctx.harness_output(p)
+    if st.get("handshakes_judged") != nhs:
+        raise Machinery("%s of %d recorded handshakes judged" % (st.get("handshakes_judged"), nhs))
+    cands += c3
+    e2 += st.get("values_compared", 0)
+    ctx.cov["end_to_end_handshakes"] = nhs
     ctx.cov["evaluations"] += evals + e2
     ctx.cov["distinct_nontrivial"] += nontriv + n2
     ctx.cov["traces_validated_against_impl"] += total + inside
